@@ -55,6 +55,9 @@ type appCase struct {
 	StdinMode   string `json:"stdin_mode,omitempty"`  // file | pipe
 	StdoutMode  string `json:"stdout_mode,omitempty"` // fast | slow
 	HookProfile string `json:"hook_profile,omitempty"`
+	// in-process: the reader now and then returns (0, nil); the writer is an io.Closer
+	EmptyPermille int  `json:"empty_reads_permille,omitempty"`
+	Closer        bool `json:"writer_is_closer,omitempty"`
 	// the source falls silent for SilenceMs after this many chunks have been written
 	SilenceAfterChunks int `json:"silence_after_chunks,omitempty"`
 	SilenceMs          int `json:"silence_ms,omitempty"`
@@ -776,6 +779,10 @@ func monC11(c *child.Ctx, replay json.RawMessage) {
 			}
 			k := appCase{ID: i + 1, App: app, Input: hexs(in), Chunk: []int{1, 16, 300, 0}[r.Intn(4)], ReaderUs: []int{0, 0, 50}[r.Intn(3)],
 				WriterMode: mode, WriterUs: us, Procs: []int{1, 2, 16}[r.Intn(3)], StartMs: fixedStart.UnixMilli()}
+			k.Closer = i%3 == 1
+			if k.Closer {
+				c.Count("cases_with_a_closable_writer", 1)
+			}
 			if app == "rtcmfilter" {
 				// every configuration of the optional logs
 				k.Display, k.Record = i%4 >= 2, i%2 == 1
@@ -998,6 +1005,11 @@ func monC10(c *child.Ctx, replay json.RawMessage) {
 			k.Input = hexs(in[:4000])
 			k.HasExpect = false
 		}
+		if i%5 == 3 {
+			k.EmptyPermille = []int{30, 300}[r.Intn(2)]
+			c.Count("cases_with_empty_reads", 1)
+		}
+		k.Closer = i%4 == 2
 		if i == 5 || (c.Thorough() && i%200 == 5) {
 			// a live session: a second or more of small frames arriving one by one while
 			// the output line is slow (the time a write takes grows with its size)
